@@ -136,6 +136,10 @@ let label_pairs (lab : 'a -> string) (f : 'a Store.fw) : string =
 let run_writer_case (c : case) =
   begin_case c;
   (match split_ws c.kind with
+   | [ k ] when (k = "writers/fw/usize" || k = "writers/fw/str") && find_in c "big" <> None ->
+       (* thousands of arguments: too slow for the extracted model (unary numbers, non-tail-recursive lists);
+          the exact-bytes and read-back oracles of checks/C14.py judge the case alone *)
+       out "skipped-big"
    | [ k ] when k = "writers/fw/usize" || k = "writers/fw/str" ->
        let reread bytes =
          out ("reread " ^ rd_s tok_of_str (Readers.read_apx bytes)) in
